@@ -16,7 +16,7 @@ RULE = ('1-3 bundles relayed in sequence by one node (so that state carried from
         'Received encoding and transmitted bytes are both decoded by the reference decoder and compared. Non-trivial: at least one hop-by-hop '
         'block present on input; distinct = digest of the bundle descriptors.')
 COMPONENTS = bc.COMPONENTS
-PROBES = ('in.prev_node', 'in.hop_count', 'in.two_hop_count', 'in.age', 'in.create_time_zero', 'in.unknown_ext', 'in.large_block_num', 'seq.multi', 'probe.negative_age', 'fault.busy_before_forward', 'in.duplicate_block_num', 'in.ipn_three_element_eid', 'fault.cl_send_error')
+PROBES = ('in.prev_node', 'in.hop_count', 'in.two_hop_count', 'in.age', 'in.create_time_zero', 'in.unknown_ext', 'in.large_block_num', 'seq.multi', 'probe.negative_age', 'fault.busy_before_forward', 'in.duplicate_block_num', 'in.ipn_three_element_eid', 'fault.cl_send_error', 'in.prev_node_not_an_eid')
 ASSUMPTIONS = ['age is judged against the relay clock and only for non-negative differences (negative skew is a probe)',
                'hop counts are generated below their limit']
 CHUNK = 25
@@ -41,7 +41,7 @@ def gen(ch, tier):
             return cand
 
         for _ in range(ch.weighted('nprev', (3, 3, 1))):
-            blocks.append(dict(type=6, num=num(), crc_type=ch.pick('c', 3), flags=0, eid=ch.choice('prev', ('dtn://prev/', 'ipn:9.0', 'dtn://n1/', 'ipn:977000.9.0'))))
+            blocks.append(dict(type=6, num=num(), crc_type=ch.pick('c', 3), flags=0, eid=ch.choice('prev', ('dtn://prev/', 'ipn:9.0', 'dtn://n1/', 'ipn:977000.9.0', 'dtn://prev/', 'NOT-AN-EID'))))
         for _ in range(ch.weighted('nhop', (3, 3, 2))):
             blocks.append(dict(type=10, num=num(), crc_type=ch.pick('c', 3), flags=ch.choice('hf', (0, 1)), limit=ch.choice('lim', (30, 255, 1000)), count=ch.choice('cnt', (0, 1, 22, 23, 24))))
         if ch.coin('age', 1, 2):
@@ -74,7 +74,9 @@ def encode(item):
     blocks = []
     for blk in item['blocks']:
         if blk['type'] == 6:
-            btsd = cbor2.dumps(rfc9171.text_to_eid(blk['eid']))
+            # a Previous Node block whose content is not an EID at all (an unsigned integer): if the bundle is forwarded
+            # regardless, the block still has to go
+            btsd = cbor2.dumps(rfc9171.text_to_eid(blk['eid'])) if blk['eid'] != 'NOT-AN-EID' else b'\x05'
         elif blk['type'] == 10:
             btsd = cbor2.dumps([blk['limit'], blk['count']])
         elif blk['type'] == 7:
@@ -211,6 +213,8 @@ def describe(run):
         types = [blk['type'] for blk in item['blocks']]
         if 6 in types:
             counters['in.prev_node'] = 1
+        if any(blk['type'] == 6 and blk.get('eid') == 'NOT-AN-EID' for blk in item['blocks']):
+            counters['in.prev_node_not_an_eid'] = 1
         if 10 in types:
             counters['in.hop_count'] = 1
         if types.count(10) > 1:
